@@ -201,6 +201,21 @@ def run(chk):
         n_eval += 1
         if not np.all(np.isfinite(g)):
             oracle_bad.append(dict(op="grad w.r.t. sorted coordinates with a tie is not finite", kernel=kname, observed=[str(v) for v in g]))
+    # (3b) nearly (not exactly) coincident points: the L2 distance is differentiable there and its gradient is the unit vector
+    from tinygp.kernels import distance as D_
+    for dim in (2, 3):
+        for sep in (5e-9, 3e-7, 1e-4):
+            a_ = rng.normal(size=dim)
+            u_ = rng.normal(size=dim)
+            u_ /= np.linalg.norm(u_)
+            b_ = a_ + sep * u_
+            want_g = (a_ - b_) / np.linalg.norm(a_ - b_)
+            for mode, op in (("grad", jax.grad), ("jacfwd", jax.jacfwd)):
+                g_ = np.asarray(op(lambda xx: D_.L2Distance().distance(xx, jnp.asarray(b_)))(jnp.asarray(a_)))
+                n_eval += 1
+                if not np.all(np.isfinite(g_)) or float(np.max(np.abs(g_ - want_g))) > 1e-5:
+                    oracle_bad.append(dict(op=f"{mode} of L2Distance.distance at points {sep:g} apart in {dim} dimensions", x1=a_.tolist(), x2=b_.tolist(),
+                                           expected=want_g.tolist(), observed=g_.tolist()))
     # (4) where the true derivative with respect to a coordinate exists (kernels that are C^1 at zero lag), AD must return it, also when a
     #     test point coincides with a training point: predictive mean w.r.t. the test coordinates, both solvers, vs finite differences
     xtr = np.array([0.0, 0.8, 1.5, 2.7, 3.1])
